@@ -50,7 +50,7 @@ def expected(name, cfg, args):
     if name == 'toConcentration':
         return x / (dc_m ** 3) / NA / 1e3, '[substance] / [length] ** 3'
     if name == 'toVolumeFraction':
-        return x * math.pi * float(args[1]) ** 3 / 6.0, 'dimensionless'
+        return x * math.pi * np.asarray(args[1], dtype=float) ** 3 / 6.0, 'dimensionless'
     raise KeyError(name)
 
 
@@ -131,7 +131,21 @@ def run_case(ctx, case):
     wrap = {0: float, 1: np.float64, 2: np.float32}[case['seed'] % 3] if case['seed'] % 5 == 0 else float       # characteristic values computed with numpy
     dcv, ecv = wrap(case['dc']), wrap(case['ec'])
     cfg['dc'], cfg['ec'] = float(dcv), float(ecv)
-    uc = UnitConverter(dc=dcv, dc_unit=case['dc_unit'], ec=ecv, ec_unit=case['ec_unit'])
+    # the class is looked up the way a user's script does, anew for every converter (attribute of the package, or a from-import)
+    try:
+        if case['seed'] % 2:
+            import pyPRISM.util
+            cls = pyPRISM.util.UnitConverter
+        else:
+            from pyPRISM.util import UnitConverter as cls
+        ctx.hook('uc.class_lookup')
+        uc = cls(dc=dcv, dc_unit=case['dc_unit'], ec=ecv, ec_unit=case['ec_unit'])
+    except Exception as e:   # noqa - valid characteristic values: a converter must be obtainable every time
+        ctx.violation('uc:constructor-raises', 'pyPRISM.util.UnitConverter(dc=%r %s, ec=%r %s) raises %s: %s' % (dcv, case['dc_unit'], ecv, case['ec_unit'], type(e).__name__, str(e)[:120]))
+        return
+    if type(uc) is not UnitConverter:
+        ctx.violation('uc:constructor-returns-other-class', 'pyPRISM.util.UnitConverter is not the documented class (%r)' % type(uc))
+        return
     _S['cfg'] = {id(uc): cfg}
     if case['arg'] == 'scalar':
         x = float(10 ** rng.uniform(-3, 3))
@@ -146,6 +160,20 @@ def run_case(ctx, case):
         if case['arg'] == 'readonly':
             x.flags.writeable = False
     d = float(rng.uniform(0.3, 3.0))
+    dk = str(rng.choice(['float', 'float', 'int', 'npscalar', 'per_element', 'column', 'array_vs_scalar']))
+    if dk == 'int':
+        d = int(rng.integers(1, 4))
+    elif dk == 'npscalar':
+        d = np.float64(d)
+    elif dk == 'per_element' and isinstance(x, np.ndarray):
+        d = rng.uniform(0.3, 3.0, size=x.shape)                      # one diameter per site type, next to one density per site type
+    elif dk == 'column' and isinstance(x, np.ndarray):
+        d = rng.uniform(0.3, 3.0, size=(int(rng.integers(2, 5)), 1))   # a diameter column broadcast against a density row
+    elif dk == 'array_vs_scalar' and not isinstance(x, np.ndarray):
+        d = rng.uniform(0.3, 3.0, size=int(rng.integers(2, 6)))
+    else:
+        dk = 'float'
+    ctx.count('diameter_arg', dk)
     done = 0
     results = {}
     for name in METHODS:
@@ -176,17 +204,19 @@ def run_case(ctx, case):
             ctx.violation('uc:%s-not-linear' % name, '%s is not %s in its argument' % (name, 'affine' if off else 'linear'))
         if isinstance(x, np.ndarray) and len(x) > 1:
             i = int(rng.integers(0, len(x)))
-            args3 = (float(x[i]), d) if name == 'toVolumeFraction' else (float(x[i]),)
+            di = d if np.ndim(d) == 0 else (float(d[i]) if np.shape(d) == x.shape else float(np.asarray(d).ravel()[0]))
+            args3 = (float(x[i]), di) if name == 'toVolumeFraction' else (float(x[i]),)
             try:
                 r3 = float(np.asarray(getattr(uc, name)(*args3).magnitude))
             except Exception:
                 continue
-            if not np.isclose(r3, r1[i], rtol=1e-10, atol=1e-10 * off):
+            r1i = r1[i] if r1.ndim == 1 else r1[0, i]
+            if not np.isclose(r3, r1i, rtol=1e-10, atol=1e-10 * off):
                 ctx.violation('uc:%s-not-elementwise' % name, '%s on an array differs from the scalar call for the same element' % name)
     if done == len(METHODS):
         ctx.nontrivial(case)
     ctx.count('dc_unit', case['dc_unit'])
     ctx.count('ec_unit', case['ec_unit'])
     ctx.count('arg', case['arg'])
-    ctx.sample({'converter': cfg, 'arg': x if not isinstance(x, np.ndarray) else x[:3], 'diameter': d,
+    ctx.sample({'converter': cfg, 'arg': x if not isinstance(x, np.ndarray) else x[:3], 'diameter': np.asarray(d).ravel()[:3].tolist(),
                 'results': {k: (np.asarray(v.magnitude).ravel()[:2].tolist(), str(v.units)) for k, v in results.items()}}, limit=3)
